@@ -84,6 +84,12 @@ def harness_c08(tier, seed):
     # ---- walk model, bounds, bye clause
     nplans = 150 if tier == "quick" else 2500
     insts = [Instance.from_resource(nm) for nm in ("circ4", "gal4", "con6", "nl6", "circ8")]
+    # an asymmetric distance matrix (one-way legs of very different length): the bye penalty must still exceed any detour
+    asym = np.array([[0, 1, 10, 2], [9, 0, 1, 10], [1, 8, 0, 1], [10, 1, 9, 0]], np.int64)
+    try:
+        insts.append(Instance("asym4", asym, ["a", "b", "c", "d"], 2, 1, 3, 1, 3, 1, 6))
+    except Exception as ex:
+        viol.append(("asymmetric-instance/raises", {"matrix": asym.tolist()}, repr(ex)))
     for _ in range(nplans):
         inst = rng.choice(insts)
         n = inst.n_cities
@@ -98,6 +104,8 @@ def harness_c08(tier, seed):
             else:
                 for t in range(n):
                     y[d, t] = rng.randint(-n, n)
+        if int(obj.bye_penalty) != 2 * int(np.array(inst).max()) + 1:
+            viol.append(("bye-penalty", {"instance": inst.name}, f"bye_penalty={obj.bye_penalty}, 2*max+1={2 * int(np.array(inst).max()) + 1}"))
         val = int(obj.evaluate(y))
         evals += 1
         distinct.add((inst.name, y.tobytes()))
@@ -208,6 +216,22 @@ def harness_c15(tier, seed):
                     for k_, c in cnt.items():
                         if c > pair.get(k_, 0):
                             viol.append(("scheduled-more-often-than-contained", {"n": n, "rounds": rounds, "x": x}, f"{k_}: {c}"))
+    # ---- long tournaments: 128 days and more (the plan dtype int8 holds team ids, not day counts)
+    for (n, rounds) in ((4, 43), (3, 100), (4, 90), (10, 15)):
+        sp = search_space_for_n_and_rounds(n, rounds)
+        games = [int(v) for v in sp.blueprint]
+        days = (n - 1) * rounds if n % 2 == 0 else n * rounds
+        x = games[:]
+        rng.shuffle(x)
+        y = np.full((days, n), 99, np.int8)
+        map_games(np.array(x, dtype=sp.dtype), y)
+        ref = ref_map_games(x, days, n)
+        evals += 1
+        distinct += 1
+        if not np.array_equal(y, ref):
+            placed = int((y > 0).sum())
+            viol.append(("decode-vs-earliest-slot-reference/long-tournament", {"n": n, "rounds": rounds, "days": days},
+                         f"{placed} games scheduled, reference schedules {int((ref > 0).sum())}"))
     seen = set()
     viol = [v for v in viol if not (v[0] in seen or seen.add(v[0]))]
     return {"name": "ttp_game_encoding", "evaluations": evals, "distinct_nontrivial": distinct,
